@@ -28,7 +28,8 @@ import (
 type c15hop struct {
 	opening []byte
 	cuts    []int
-	hangup  bool   // the server half-closes after the opening (Open fails with EOF) instead of going silent
+	hangup  bool   // the opening is aborted, Open fails and nobody reads: by default the server half-closes after the opening (EOF)
+	abort   string // with hangup: "" = half-close (EOF, replies still observed), "reset" = RST after the opening, "refused" = nobody listens (no bytes at all)
 	tail    []byte // sent once Open has returned (silent mode only)
 }
 
@@ -43,7 +44,7 @@ func (h *c15hist) line() string {
 	for _, op := range h.ops {
 		mode := "t"
 		if op.hangup {
-			mode = "h"
+			mode = map[string]string{"": "h", "reset": "r", "refused": "x"}[op.abort]
 		}
 		parts = append(parts, fmt.Sprintf("%s/%s/%s/%s", vlib.Hex(op.opening), mode, intsStr(op.cuts), vlib.Hex(op.tail)))
 	}
@@ -55,7 +56,7 @@ func (h *c15hist) describe(upto int) string {
 	for i := 0; i <= upto && i < len(h.ops); i++ {
 		how := "then silent"
 		if h.ops[i].hangup {
-			how = "then hangs up"
+			how = "then " + map[string]string{"": "hangs up", "reset": "resets the connection", "refused": "(connection refused)"}[h.ops[i].abort]
 		}
 		p = append(p, fmt.Sprintf("#%d server sends %s %s", i+1, vlib.Hex(h.ops[i].opening), how))
 	}
@@ -82,7 +83,8 @@ func c15parseHist(line string) (*c15hist, error) {
 			return nil, err
 		}
 		tail, _ := vlib.UnHex(q[3])
-		hop := c15hop{opening: op, hangup: q[1] == "h", cuts: strInts(q[2]), tail: tail}
+		hop := c15hop{opening: op, hangup: q[1] == "h" || q[1] == "r" || q[1] == "x", cuts: strInts(q[2]), tail: tail,
+			abort: map[string]string{"r": "reset", "x": "refused"}[q[1]]}
 		sum := 0
 		for _, c := range hop.cuts {
 			sum += c
@@ -99,6 +101,15 @@ func c15parseHist(line string) (*c15hist, error) {
 		h.ops = append(h.ops, hop)
 	}
 	return h, nil
+}
+
+func c15mkAbort(r *vlib.Rng, opening []byte, abort string) c15hop {
+	h := c15mkHop(r, opening, true)
+	h.abort = abort
+	if abort == "refused" {
+		h.opening, h.cuts = nil, nil
+	}
+	return h
 }
 
 func c15mkHop(r *vlib.Rng, opening []byte, hangup bool) c15hop {
@@ -142,16 +153,24 @@ func c15genHistories(c *ctx, r *vlib.Rng) []*c15hist {
 	add("fixed", c15mkHop(r, hx("616263"), false), c15mkHop(r, hx("fffd0378"), false))                  // complete, read, reopened
 	add("fixed", c15mkHop(r, hx("fffd03fffb01"), true), c15mkHop(r, hx("fffd03fffb016f6b"), false))     // complete negotiations, hang-up, retry
 	add("fixed", c15mkHop(r, hx("ff"), true), c15mkHop(r, hx("fffc"), false), c15mkHop(r, hx("fffd03fff16869"), false))
-	add("fixed", c15mkHop(r, hx("616263fffb"), true), c15mkHop(r, hx("6c6f67696e"), false)) // banner, then cut: bytes of the dead connection
+	add("fixed", c15mkHop(r, hx("616263fffb"), true), c15mkHop(r, hx("6c6f67696e"), false))                        // banner, then cut: bytes of the dead connection
+	add("fixed", c15mkAbort(r, hx("fffd18fffb"), "reset"), c15mkHop(r, hx("fffd18fffb01fffd036c6f67696e"), false)) // reset inside a sequence, retry
+	add("fixed", c15mkAbort(r, hx("fffd03fffb01fffd18fffd206162"), "reset"), c15mkHop(r, hx("fffd036f6b"), false)) // reset after several requests and text
+	add("fixed", c15mkAbort(r, nil, "refused"), c15mkHop(r, hx("fffd18fffb016c6f67696e"), false))                  // connection refused, retry
+	add("fixed", c15mkHop(r, hx("ff"), false), c15mkAbort(r, nil, "refused"), c15mkHop(r, hx("fffd1861"), false))  // timed out after IAC, refused, retry
 	// previous opening cut at every offset inside a sequence (after IAC, after IAC + each verb), by
 	// hang-up and by the end of the negotiation phase, bare and after a complete negotiation
 	nexts := [][]byte{hx("fffd186f6b"), hx("6869fffb01"), hx("fff178fffe03"), hx("fffffffc01")}
 	k := 0
 	for _, trunc := range [][]byte{{255}, {255, 251}, {255, 252}, {255, 253}, {255, 254}} {
-		for _, hang := range []bool{true, false} {
+		for _, hang := range []string{"hangup", "silent", "reset"} {
 			for _, pre := range [][]byte{nil, hx("fffd03")} {
 				prev := append(append([]byte{}, pre...), trunc...)
-				add("cut-at-every-offset", c15mkHop(r, prev, hang), c15mkHop(r, nexts[k%len(nexts)], false))
+				first := c15mkHop(r, prev, hang == "hangup")
+				if hang == "reset" {
+					first = c15mkAbort(r, prev, "reset")
+				}
+				add("cut-at-every-offset", first, c15mkHop(r, nexts[k%len(nexts)], false))
 				k++
 			}
 		}
@@ -179,7 +198,16 @@ func c15genHistories(c *ctx, r *vlib.Rng) []*c15hist {
 				// make what follows the stale state visible at once: the opening starts with a request
 				op = append([]byte{255, byte(251 + r.Intn(4)), c15Options[r.Intn(len(c15Options))]}, op...)
 			}
-			ops = append(ops, c15mkHop(r, op, hang))
+			hop := c15mkHop(r, op, hang)
+			if hang {
+				switch r.Intn(5) {
+				case 0, 1:
+					hop = c15mkAbort(r, op, "reset")
+				case 2:
+					hop = c15mkAbort(r, op, "refused")
+				}
+			}
+			ops = append(ops, hop)
 		}
 		add("random", ops...)
 	}
@@ -204,6 +232,11 @@ func c15runHistory(h *c15hist, tms int, useGaps bool) []c15obs {
 	}
 	defer ln.Close()
 	port := ln.Addr().(*net.TCPAddr).Port
+	deadPort := 0
+	if l2, err := net.Listen("tcp", "127.0.0.1:0"); err == nil {
+		deadPort = l2.Addr().(*net.TCPAddr).Port
+		l2.Close()
+	}
 	n := len(h.ops)
 	openDone := make([]chan struct{}, n)
 	connDone := make([]chan struct{}, n)
@@ -217,6 +250,9 @@ func c15runHistory(h *c15hist, tms int, useGaps bool) []c15obs {
 		for i, op := range h.ops {
 			func() {
 				defer close(connDone[i])
+				if op.abort == "refused" {
+					return // the client dials a port nobody listens on
+				}
 				ln.(*net.TCPListener).SetDeadline(time.Now().Add(10 * time.Second))
 				conn, err := ln.Accept()
 				if err != nil {
@@ -249,7 +285,10 @@ func c15runHistory(h *c15hist, tms int, useGaps bool) []c15obs {
 					rest = rest[c:]
 					stamps[i] = append(stamps[i], time.Now())
 				}
-				if op.hangup && tc != nil {
+				if op.abort == "reset" && tc != nil {
+					tc.SetLinger(0) // RST
+					conn.Close()
+				} else if op.hangup && tc != nil {
 					tc.CloseWrite() // the client sees EOF after the opening; we keep reading its replies
 				} else {
 					select {
@@ -278,7 +317,11 @@ func c15runHistory(h *c15hist, tms int, useGaps bool) []c15obs {
 	for i, op := range h.ops {
 		o := &obs[i]
 		t0 := time.Now()
+		if op.abort == "refused" {
+			tr.Args.Port = deadPort
+		}
 		o.openErr = tr.Open()
+		tr.Args.Port = port
 		close(openDone[i])
 		if o.openErr == nil {
 			var reads [][]byte
@@ -354,7 +397,8 @@ func c15judgeHop(h *c15hist, m *c15histModel, i int, o c15obs) (kind, detail, si
 		if o.openErr == nil {
 			return "correspondence", where + ": Open succeeded although the server hung up during the negotiation phase", "history:hangup-open-succeeded"
 		}
-		if gotRecv != hexListFlat(ch.replies) {
+		// (after a reset the server is gone: what it still received is not compared)
+		if op.abort == "" && gotRecv != hexListFlat(ch.replies) {
 			return "correspondence", fmt.Sprintf("%s: server received %s ; model replies %s", where, gotRecv, ch.replies), "history:public-vs-model"
 		}
 		return "", "", ""
@@ -533,7 +577,7 @@ func runC15History(c *ctx, hists []*c15hist) {
 			o := all[i][j]
 			mode := "silent"
 			if op.hangup {
-				mode = "hangup"
+				mode = map[string]string{"": "hangup", "reset": "reset", "refused": "refused"}[op.abort]
 			}
 			state := "complete"
 			if models[i].single[j].pending != "-" {
